@@ -208,7 +208,7 @@ CHECKS["C03"] = {
                        "ZZ_C03_CreateBAR:C03.bar.done", "ZZ_C03_UpdateBAR:C03.bar.done", "ZZ_C03_RemoveQERBAR:C03.rm.done"]},
     "bounds": {
         "quick": "Create/Update QER, URR, BAR and the removals with every IE payload byte, the SEID and the link index symbolic (40-bit rates, 64-bit volumes, flag octets, 32-bit periods >= 1 s); 3 presence profiles per rule kind (BAR: all 4 subsets); child order: every rotation, plain and reversed",
-        "thorough": "all 2^7 QER and 2^6 URR presence subsets, Reporting Triggers of 2 and 3 octets, all 8x8 threshold/quota flag subsets; same orders",
+        "thorough": "all 2^7 QER and 2^6 URR presence subsets, Reporting Triggers of 2 and 3 octets, all 7x7 non-empty threshold/quota flag subsets; same orders",
     },
     "outside": "duration thresholds, time quota, event-based IEs (not supported by the driver); the URR_MEASUREMENT_PERIOD netlink attribute value (nanoseconds truncated to 32 bits, marked TODO in the code) is only width-checked; IE lengths other than nominal (C07)",
     "assumptions": FWD_ASSUME + ["spare bits of Gate Status, QFI, RQI, PPI, Measurement Method are zero (well-formed IEs)"],
